@@ -51,7 +51,8 @@ def gen_case(rng, max_rows):
             if nm == "h0":
                 c = [max(x, 1.0) for x in c]
         cols.append(c)
-    factors = [rng.choice([rng.uniform(0.01, 100.0), 2.0, 0.5]) if (j < len(names) and names[j] in ("h0", "lambda_mst")) else 1.0
+    # any positive factor: moderate ones and changes of physical units (H0 in 1/s: x 3.24e-20; 1e-9; 1e-12; 1e9; 1e-30)
+    factors = [rng.choice([rng.uniform(0.01, 100.0), 2.0, 0.5, 3.2407792896664e-20, 1e-9, 1e-12, 1e9, 1e-30, 10 ** rng.uniform(-25, 15)]) if (j < len(names) and names[j] in ("h0", "lambda_mst")) else 1.0
                for j in range(ncol)]
     return {"cols": cols, "names": names, "factors": factors}
 
